@@ -14,10 +14,12 @@ def prebuild():
 
 def run(tier):
     os.environ.setdefault('VERIF_BUDGET_S', '300' if tier == 'quick' else '3000')  # a cap that is hit ends the run with exhaustive:false, exit 0
-    variants = None
+    # upgrade path: a network that started with the legacy JSON encoding and is restarted with protobuf (the stores
+    # are converted when they are opened), one operation shallower
+    variants = [('json store converted to protobuf at the first restart', {'VERIF_ENCODING': 'json-upgrade', 'VERIF_DEPTH': '3'}), ('', {})]
     if tier == 'thorough':
         # the legacy JSON encoding (messages, store values, snapshots) at the quick depth, then protobuf one deeper
-        variants = [('json encoding', {'VERIF_ENCODING': 'json', 'VERIF_DEPTH': '4'}), ('', {})]
+        variants = [('json encoding', {'VERIF_ENCODING': 'json', 'VERIF_DEPTH': '4'}), ('json store converted to protobuf at the first restart', {'VERIF_ENCODING': 'json-upgrade', 'VERIF_DEPTH': '4'}), ('', {})]
     apidrive.run_seq('C10', tier, 'TestVerifC10', ASSUME, RULE, variants=variants)
 
 def replay(path):
